@@ -285,62 +285,56 @@ func netIPv4(ex *Exec, st *State, fr *Frame, c ssa.Instruction, fn *ssa.Function
 	return []Outcome{{st, []Value{mkBytes(st, vals, "net.IPv4")}}}
 }
 
-// ip.To4(): len 4 -> ip; len 16 with the v4-in-v6 prefix -> ip[12:16]; otherwise nil.
+// ip.To4(): len 4 -> ip; len 16 with the v4-in-v6 prefix -> ip[12:16]; otherwise nil. Single outcome: the
+// result aliases ip's backing object in both non-nil cases (offset/length are ite terms).
 func ipTo4(ex *Exec, st *State, fr *Frame, c ssa.Instruction, fn *ssa.Function, args []Value) []Outcome {
 	ip := args[0].(VSlice)
 	mem, off, ln, _ := ex.bytesOf(st, ip)
-	var outs []Outcome
 	is4 := Eq(ln, Const(64, 4))
 	is16 := Eq(ln, Const(64, 16))
 	pre := True
 	for i, b := range v4prefix {
 		pre = And(pre, Eq(mem.Read(Add(off, Const(64, uint64(i)))), Const(8, b)))
 	}
-	add := func(cond *Term, v Value) {
-		if cond.IsFalse() {
-			return
-		}
-		s2 := st.clone()
-		s2.assume(cond)
-		outs = append(outs, Outcome{s2, []Value{v}})
+	m16 := And(is16, pre)
+	ok := Or(is4, m16)
+	if ip.Obj == 0 {
+		return []Outcome{{st, []Value{zeroValue(fn.Signature.Results().At(0).Type())}}}
 	}
-	add(is4, ip)
-	add(And(is16, pre), VSlice{Obj: ip.Obj, Off: Add(ip.Off, Const(64, 12)), Len: Const(64, 4), Cap: Sub(ip.Cap, Const(64, 12)), Nil: False})
-	add(And(Not(is4), Not(And(is16, pre))), zeroValue(fn.Signature.Results().At(0).Type()))
-	return outs
+	r := VSlice{Obj: ip.Obj, Off: Add(ip.Off, Ite(m16, Const(64, 12), Const(64, 0))), Len: Ite(ok, Const(64, 4), Const(64, 0)),
+		Cap: Ite(ok, Sub(ip.Cap, Ite(m16, Const(64, 12), Const(64, 0))), Const(64, 0)), Nil: Not(ok)}
+	return []Outcome{{st, []Value{r}}}
 }
 
-// ip.To16(): len 4 -> fresh v4-mapped 16 bytes; len 16 -> ip; otherwise nil.
+// ip.To16(): len 4 -> fresh v4-mapped 16 bytes; len 16 -> ip; otherwise nil. Single outcome on a new object
+// holding the right contents (aliasing with ip in the 16-byte case is kept only as the ownership flag).
 func ipTo16(ex *Exec, st *State, fr *Frame, c ssa.Instruction, fn *ssa.Function, args []Value) []Outcome {
 	ip := args[0].(VSlice)
 	mem, off, ln, _ := ex.bytesOf(st, ip)
-	var outs []Outcome
 	is4 := Eq(ln, Const(64, 4))
 	is16 := Eq(ln, Const(64, 16))
-	if !is4.IsFalse() {
-		s2 := st.clone()
-		s2.assume(is4)
-		var vals []*Term
-		for _, b := range v4prefix {
-			vals = append(vals, Const(8, b))
+	ok := Or(is4, is16)
+	nm := bmZeros
+	for i := 0; i < 16; i++ {
+		var v4 *Term
+		if i < 12 {
+			v4 = Const(8, v4prefix[i])
+		} else {
+			v4 = mem.Read(Add(off, Const(64, uint64(i-12))))
 		}
-		for i := 0; i < 4; i++ {
-			vals = append(vals, mem.Read(Add(off, Const(64, uint64(i)))))
+		nm = nm.Store(Const(64, uint64(i)), Ite(is4, v4, mem.Read(Add(off, Const(64, uint64(i))))))
+	}
+	id := st.allocBytes(nm, Const(64, 16), true, "To16")
+	if ip.Obj != 0 {
+		if o := st.heap[ip.Obj]; o != nil && (o.Input || !o.Fresh) {
+			c2 := *st.heap[id]
+			c2.Input = o.Input
+			c2.Fresh = o.Fresh
+			st.heap[id] = &c2
 		}
-		outs = append(outs, Outcome{s2, []Value{mkBytes(s2, vals, "To16")}})
 	}
-	if !is16.IsFalse() {
-		s2 := st.clone()
-		s2.assume(is16)
-		outs = append(outs, Outcome{s2, []Value{ip}})
-	}
-	rest := And(Not(is4), Not(is16))
-	if !rest.IsFalse() {
-		s2 := st.clone()
-		s2.assume(rest)
-		outs = append(outs, Outcome{s2, []Value{zeroValue(fn.Signature.Results().At(0).Type())}})
-	}
-	return outs
+	r := VSlice{Obj: id, Off: Const(64, 0), Len: Ite(ok, Const(64, 16), Const(64, 0)), Cap: Ite(ok, Const(64, 16), Const(64, 0)), Nil: Not(ok)}
+	return []Outcome{{st, []Value{r}}}
 }
 
 // ---------- encoding/binary.Read / Write on *bytes.Buffer (assumed contracts keyed by static type) ----------
